@@ -44,21 +44,20 @@ TypeRefs == {"typeLit", "typeVar", "typeField", "typeParam", "typeResult", "type
 Pkgs == {"d", "u", "v"}
 
 \* C13: spelled type references are encoded as "<ref>@<spelling>"; the verdict ignores the spelling
-Spells == {"alias", "alias3", "ptralias", "rename", "paren"}
-SpelledRefs == {"typeLit@alias", "typeLit@alias3", "typeLit@rename",
-                "typeVar@alias", "typeVar@alias3", "typeVar@rename", "typeVar@paren", "typeVar@ptralias",
-                "typeField@alias", "typeField@alias3", "typeField@rename", "typeField@paren", "typeField@ptralias",
-                "typeParam@alias", "typeParam@alias3", "typeParam@rename", "typeParam@paren", "typeParam@ptralias",
-                "typeResult@alias", "typeResult@alias3", "typeResult@rename", "typeResult@paren"}
-Base(r) == CASE r \in {"typeLit@alias", "typeLit@alias3", "typeLit@rename"} -> "typeLit"
-             [] r \in {"typeVar@alias", "typeVar@alias3", "typeVar@rename", "typeVar@paren", "typeVar@ptralias"} -> "typeVar"
-             [] r \in {"typeField@alias", "typeField@alias3", "typeField@rename", "typeField@paren", "typeField@ptralias"} -> "typeField"
-             [] r \in {"typeParam@alias", "typeParam@alias3", "typeParam@rename", "typeParam@paren", "typeParam@ptralias"} -> "typeParam"
-             [] r \in {"typeResult@alias", "typeResult@alias3", "typeResult@rename", "typeResult@paren"} -> "typeResult"
-             [] OTHER -> r
-ViaAlias(r) == r \in {"typeLit@alias", "typeLit@alias3", "typeVar@alias", "typeVar@alias3", "typeVar@ptralias", "typeField@alias",
-                      "typeField@alias3", "typeField@ptralias", "typeParam@alias", "typeParam@alias3", "typeParam@ptralias",
-                      "typeResult@alias", "typeResult@alias3"}
+Spells == {"alias", "alias3", "chain", "chain3", "ptralias", "ptralias3", "ptrchain", "ptrchain3", "rename", "paren"}
+\* alias: type TA = d.PT in the using package; alias3: the same in a third package q; chain: type TA2 = TA; ptralias: type TP = *d.PT;
+\* ptrchain: type TH = TP (an alias of an alias of a pointer); the ...3 forms declare the aliases in q
+PtrSpells == {"ptralias", "ptralias3", "ptrchain", "ptrchain3"}
+AliasSpells == Spells \ {"rename", "paren"}
+SpellsOf(b) == CASE b = "typeLit" -> {"alias", "alias3", "chain", "chain3", "rename"}
+                 [] b \in {"typeVar", "typeField", "typeParam", "typeResult"} -> Spells
+                 [] OTHER -> {}
+Sp(b, sp) == b \o "@" \o sp
+SpelledRefs == UNION {{Sp(b, sp) : sp \in SpellsOf(b)} : b \in TypeRefs}
+BaseTab == [r \in SpelledRefs |-> CHOOSE b \in TypeRefs : \E sp \in SpellsOf(b) : r = Sp(b, sp)]
+AliasTab == [r \in SpelledRefs |-> \E b \in TypeRefs : \E sp \in AliasSpells \cap SpellsOf(b) : r = Sp(b, sp)]
+Base(r) == IF r \in SpelledRefs THEN BaseTab[r] ELSE r
+ViaAlias(r) == r \in SpelledRefs /\ AliasTab[r]
 
 PathOf(P) == CASE P = "d" -> "m/d" [] P = "u" -> "m/u" [] P = "v" -> "m/vv"
 NameOf(P) == P
